@@ -101,7 +101,7 @@ fn resolve_constant_simple(
     {
         if opts.debug_iterations
         {
-            println!("const: {} = {:?} [static]",
+            debug_println!("const: {} = {:?} [static]",
                 ast_symbol.name,
                 symbol.value);
         }
@@ -113,7 +113,7 @@ fn resolve_constant_simple(
 
     if opts.debug_iterations
     {
-        println!("const: {} = {:?}",
+        debug_println!("const: {} = {:?}",
             ast_symbol.name,
             symbol.value);
     }
@@ -180,7 +180,7 @@ pub fn resolve_constant(
     {
         if opts.debug_iterations
         {
-            println!("const: {} = {:?} [static]",
+            debug_println!("const: {} = {:?} [static]",
                 ast_symbol.name,
                 symbol.value);
         }
@@ -202,7 +202,7 @@ pub fn resolve_constant(
 
         if opts.debug_iterations
         {
-            println!("const: {} = {:?}",
+            debug_println!("const: {} = {:?}",
                 ast_symbol.name,
                 symbol.value);
         }
